@@ -79,7 +79,7 @@ static void batch_raw(Rng& r) {
     VF_CHECK(compute_seed_hash(DEFAULT_SEED) == 0x93cc, "hash|seed-hash|default-seed-not-0x93cc", str(compute_seed_hash(DEFAULT_SEED)));   // value in every Java image
   }
   std::vector<uint8_t> buf(400);
-  const bool xx_unaligned_case = (G().cur_case / NBATCH) % 64 == 3;
+  const bool xx_unaligned_case = (G().cur_case / NBATCH) % 64 == 3 && G().cur_case < 64 * NBATCH * 6;   // at most 6 probe cases per run
   for (int it = 0; it < 40; ++it) {
     const size_t len = r.chance(0.2) ? r.pick<size_t>({0, 1, 7, 8, 15, 16, 17, 31, 32, 33, 63, 64, 255, 256, 300}) : r.below(301);
     const size_t off = r.below(17);
